@@ -76,6 +76,11 @@ def reconn_scenarios(tier, rng):
         sc = S("k-peer-%d" % i, [P(1)], ["conn"], [], opts=opts)
         sc["reqs"] += [{"k": "sample", "at": "idle"}] + [{"k": "peerclose", "at": "idle"}, {"k": "pub", "q": 1, "at": "idle"}, {"k": "sample", "at": "idle"}] * (i + 1)
         out.append(sc)
+    # Disconnect arriving while a keep-alive PINGREQ is in flight (held inside its write)
+    for wk in (3, 4):
+        sc = S("k-discping-%d" % wk, [P(1)], ["conn"], [], opts=dict(opts, sampleAfterMs=60))
+        sc["reqs"].append({"k": "disconnect", "at": "write:%d" % wk})
+        out.append(sc)
     out.append(S("k-refused2", [P(1), P(1)], ["conn", "idle"], [{"p": "PUBLISH", "n": 1, "o": "cutAfter"}], connacks=[{}, {"code": 3}], opts=opts))
     n = 10 if tier == "quick" else 150
     comps = None
